@@ -32,13 +32,16 @@ type c19Group struct {
 	Servers []int    `json:"origin_indexes"`
 	Up      []bool   `json:"up"`
 	History []string `json:"history"`
+	// Soft: a server of this group goes "down" by failing its HTTP health check (503) while it keeps
+	// listening and would still answer requests
+	Soft bool `json:"down_means_health_check_answers_503"`
 	// ProxyTimeout of the group's location (0 = none)
 	ProxyTimeout time.Duration `json:"proxy_timeout"`
 }
 
 func c19(r *hx.Run) {
 	r.Level = "fault_enumeration"
-	r.Rule = "G upstream groups in one in-process pike (whose unchanged configuration is re-applied before odd phases) plus two groups behind the real binary (eight round-robin primaries; primary+backup with policy first; all down / all up alternately, so that more than eight transitions to sick happen), each with 1-4 servers (every primary/backup mix incl. backups only), policy from {roundRobin, first, random, leastconn, default}, health check by ping path or by port. Phases: initial (all up), then random up/down vectors (all down, primaries down, one down, ...), finally all up again; servers are really stopped and restarted on the same port. After each change the driver waits until a live server of the group has seen two complete health-check rounds that began after the change (pings/connections are visible at the origins; 11.5 s when nothing is alive), then sends 12 sequential requests per group: each must be served by a healthy primary, or by a healthy backup only if no primary is healthy; roundRobin counts over healthy primaries differ by <= 1; with nothing healthy every request gets a 5xx within 2 s; after recovery traffic resumes. Finally, with everything healthy, single requests fail for reasons that are not the server's (the client gives up on a slow request after 150 ms; a request exceeds the location's 1.5 s proxy timeout) and, for groups with backups, one slow request is held in flight on every primary: the 12 requests that follow are judged by the same rule (the servers never failed a health check). Non-trivial = settled phase with at least one server down; distinct = (policy, ping kind, backup mix, up vector)."
+	r.Rule = "G upstream groups in one in-process pike (whose unchanged configuration is re-applied before odd phases) plus two groups behind the real binary (eight round-robin primaries; primary+backup with policy first; all down / all up alternately, so that more than eight transitions to sick happen), each with 1-4 servers (every primary/backup mix incl. backups only), policy from {roundRobin, first, random, leastconn, default}, health check by ping path (/ping or /) or by port; in a quarter of the groups a server goes down by answering its health check with 503 while it keeps listening. Phases: initial (all up), then random up/down vectors (all down, primaries down, one down, ...), finally all up again; servers are really stopped and restarted on the same port. After each change the driver waits until a live server of the group has seen two complete health-check rounds that began after the change (pings/connections are visible at the origins; 11.5 s when nothing is alive), then sends 12 sequential requests per group: each must be served by a healthy primary, or by a healthy backup only if no primary is healthy; roundRobin counts over healthy primaries differ by <= 1; with nothing healthy every request gets a 5xx within 2 s; after recovery traffic resumes. Finally, with everything healthy, single requests fail for reasons that are not the server's (the client gives up on a slow request after 150 ms; a request exceeds the location's 1.5 s proxy timeout) and, for groups with backups, one slow request is held in flight on every primary: the 12 requests that follow are judged by the same rule (the servers never failed a health check). Non-trivial = settled phase with at least one server down; distinct = (policy, ping kind, backup mix, up vector)."
 	r.Assume = []string{"the health checker's 5 s ticker has no clock seam: settling is observed, the run is wall-clock bound", "behaviour inside the unsettled window is not judged"}
 	rnd := rand.New(rand.NewSource(r.Seed))
 	nGroups := r.Pick(14, 100)
@@ -55,6 +58,9 @@ func c19(r *hx.Run) {
 		gr := &c19Group{ID: g, Policy: policies[g%len(policies)], Backup: mix}
 		if g%2 == 1 {
 			gr.Ping = "/ping"
+		}
+		if g%4 == 3 {
+			gr.Ping, gr.Soft = "/", true
 		}
 		for range mix {
 			gr.Servers = append(gr.Servers, total)
@@ -342,12 +348,19 @@ func c19(r *hx.Run) {
 				}
 				o := g.w.farm.Origins[g.Servers[i]]
 				if want && !g.Up[i] {
-					if err := o.Up(); err != nil {
+					if g.Soft {
+						o.PingStatus.Store(0)
+					} else if err := o.Up(); err != nil {
 						r.InconclusiveCase("cannot restart origin: " + err.Error())
 					}
 					r.Add("servers_brought_up", 1)
 				} else if !want && g.Up[i] {
-					o.Down()
+					if g.Soft {
+						o.PingStatus.Store(503)
+						r.Add("servers_failing_their_http_health_check_while_listening", 1)
+					} else {
+						o.Down()
+					}
 					r.Add("servers_taken_down", 1)
 				}
 				g.Up[i] = want
